@@ -1,6 +1,7 @@
 import Goyang.Lemmas.LoadOrderDump
 import Goyang.Lemmas.LoadOrderLoad
 import Goyang.Lemmas.LoadOrderKept
+import Goyang.Lemmas.LoadOrderTexts
 import Goyang.Lemmas.LoadOrderWitness
 import Goyang.Props.C05
 import Goyang.Lemmas.LoadOrderPlug
@@ -37,10 +38,30 @@ Texts (`processFiles`, `Modules.Parse` atomic per text): `process_files_load_ord
 (pairwise different modules, arbitrary names) and `process_files_load_order_irrelevant_acceptable`
 (texts that are refused on their own — `@` name, one header twice inside the text — may be
 present: they are refused wherever they stand; the texts acceptable on their own must define
-pairwise different modules).  NOT proved: a first-load theorem at the level of texts when two
-texts that are both acceptable alone share a header (which texts are accepted then depends on
-the order through atomicity: a text refused for one duplicate header frees its other headers);
-the statement-level theorems cover lists of one-module texts.
+pairwise different modules).  Texts that are both acceptable alone and SHARE a header (formerly
+named here as not proved): which texts are accepted then depends on the order through atomicity —
+a text refused for one duplicate header frees its other headers, so the first load of every
+header of the flattened statement list does NOT decide (`first_loads_of_statements_do_not_decide_texts`).
+The exact statement is proved instead (last section of this file, `Lemmas/LoadOrderTexts.lean`):
+`acceptedIn files` = the texts `Modules.Parse` accepts in that order (the fold Go performs; read
+off the headers in `accepted_texts_characterised`); `processFiles files = processFiles (acceptedIn
+files)` (`process_files_eq_accepted`), the accepted texts being a module set
+(`accepted_texts_are_a_module_set`); and two lists of texts with the same accepted texts, as a
+multiset, have the same outcome — registry up to load sequence numbers, canonical dump, error
+list (`process_files_determined_by_accepted`, `process_determined_by_accepted_texts`).  This
+delimits the property at the level of texts: "the same sources" in two load orders give the same
+result exactly as far as both orders accept the same texts; every order does when the texts
+acceptable alone define pairwise different headers (`accepted_eq_acceptable_of_distinct`,
+`accepted_perm_of_distinct`), and for two texts the condition is necessary as well
+(`accepted_pair_perm_iff`, `pair_order_irrelevant_iff`: with a shared header `[f, g]` is processed
+as `f` alone and `[g, f]` as `g` alone).  With shared headers the accepted set itself depends on
+the order: `process_files_order_matters_with_shared_headers` (three texts, `a` in two and `b` in
+two of them; `t1, t2, t3` accepts `t1, t3`, `t2, t1, t3` accepts `t2` only; the dumps differ;
+kernel-evaluated on `processFiles` with `plugFull`, and replayed on the Go code, which answers
+`duplicate module a at t1.yang:1:1 and t2.yang:1:1` and accepts / refuses the same texts).  This
+is the documented first-wins behaviour of duplicate loads, not a defect: the property speaks of
+the same SOURCES of a module set, and two texts for one (kind, name, revision) are two different
+candidate sets.  Nothing about texts remains open; the tie to Go remains by runs.
 
 In the resolver model a loaded module is identified by its load sequence number `Mod.seq`
 (tree ids, `nodeMod`, visited sets, caches, pending augments, link sets, the identity dictionary
@@ -538,5 +559,331 @@ example : ¬ SameFirstLoads [dupA, dupA'] [dupA', dupA] := by
     rw [this]
   revert e
   decide
+
+/-! ### texts that share headers: the accepted texts decide
+
+`Modules.Parse` is atomic per text.  When two texts that are both acceptable on their own define
+one header, the later one is refused as a whole — and its OTHER headers stay free for later
+texts.  Which texts are accepted is therefore decided by the order (first come, first served, the
+documented behaviour of a duplicate load: `duplicate module a at … and …`), and not by the first
+load of every header of the flattened statement list: a header's first carrier may sit in a
+refused text (`first_loads_of_statements_do_not_decide_texts`).  What holds, exactly:
+`processFiles` of a list of texts is `processFiles` of the texts accepted in that order
+(`process_files_eq_accepted`; `acceptedIn` is the fold Go performs, `accepted_texts_characterised`
+reads it off the headers), the accepted texts are a module set (`accepted_texts_are_a_module_set`),
+and two lists with the same accepted texts — as a multiset — have the same outcome: registry up
+to the load sequence numbers, canonical dump, error list (`process_files_determined_by_accepted`).
+Load-order independence of a given list of texts thus holds exactly as far as its orders accept
+the same texts; they all do when the texts acceptable alone define pairwise different headers
+(`accepted_eq_acceptable_of_distinct`: then `process_files_load_order_irrelevant_acceptable` is
+the special case), and with shared headers they need not
+(`process_files_order_matters_with_shared_headers`, replayed on the Go code). -/
+
+/-- The texts `Modules.Parse` accepts, in load order, when the texts are parsed one after the
+other into a fresh `Modules` — defined by the fold `loadFiles` performs: a text is accepted when
+`Registry.addText` (every statement added in turn, all or nothing) succeeds on the registry built
+from the texts accepted before it. -/
+def acceptedIn (files : List SrcFile) : List SrcFile := Lemmas.LoadOrder.acceptedIn files
+
+/-- The same list read off the headers alone (`before` = the headers of the texts accepted so
+far): a text is accepted when it is acceptable on its own and none of its headers is held. -/
+def acceptedGiven (before : List Header) : List SrcFile → List SrcFile
+  | [] => []
+  | f :: rest =>
+    if AcceptableAlone f && f.stmts.all (fun s => !before.contains (header s)) then
+      f :: acceptedGiven (before ++ f.stmts.map header) rest
+    else acceptedGiven before rest
+
+/-- **Which texts are accepted**: a text is accepted exactly when it is acceptable on its own
+(`@`-free names, no header twice) and none of its headers is defined by a text accepted before it;
+the accepted texts are a sublist of the texts, and accepting them again accepts them all. -/
+theorem accepted_texts_characterised (files : List SrcFile) :
+    acceptedIn files = acceptedGiven [] files ∧ (acceptedIn files).Sublist files ∧
+    acceptedIn (acceptedIn files) = acceptedIn files := by
+  refine ⟨?_, acceptedIn_sublist files, acceptedIn_idem files⟩
+  unfold acceptedIn
+  rw [acceptedIn_eq]
+  generalize ([] : List Header) = before
+  induction files generalizing before with
+  | nil => rfl
+  | cons f rest ih =>
+    simp only [acceptedAfter, acceptedGiven, AcceptableAlone, freshFor, ih]
+    rfl
+
+/-- **The accepted texts are a module set**: their statements have `@`-free names and pairwise
+different headers, and the registry after ALL the texts is the registry `Modules.add` builds from
+these statements one by one. -/
+theorem accepted_texts_are_a_module_set (files : List SrcFile) :
+    NamesOk (stmtsOf (acceptedIn files)) ∧ Distinct (stmtsOf (acceptedIn files)) ∧
+    loadFiles files = (Registry.loadAll (stmtsOf (acceptedIn files))).1 :=
+  ⟨acceptedIn_noAt files, acceptedIn_nodup files, loadFiles_accepted files⟩
+
+/-- None of the texts is outside the resolver model (`processFiles` answers `.ok`). -/
+def InsideModel (files : List SrcFile) : Prop := (files.findSome? fun f => outsideL "" f.stmts) = none
+
+/-- **`processFiles` of a list of texts is `processFiles` of the texts accepted in that order**:
+a refused text leaves no trace in the registry, so registry and outcome are those of the accepted
+sublist.  (`InsideModel`: the refused texts are inspected by the model's applicability test too.) -/
+theorem process_files_eq_accepted (opts : Opts) (files : List SrcFile) :
+    loadFiles files = loadFiles (acceptedIn files) ∧
+    (InsideModel files → processFiles opts files = processFiles opts (acceptedIn files)) := by
+  refine ⟨loadFiles_acceptedIn files, fun hin => ?_⟩
+  have hin' : ((acceptedIn files).findSome? fun f => outsideL "" f.stmts) = none :=
+    findSome?_none_sublist (acceptedIn_sublist files) hin
+  unfold processFiles
+  unfold InsideModel at hin
+  rw [hin, hin']
+  have e : loadFiles (acceptedIn files) = loadFiles files := (loadFiles_acceptedIn files).symm
+  rw [e]
+
+/-- **The accepted texts decide the outcome** — lists of texts, not necessarily permutations of
+each other, arbitrary shared headers: when the same texts are accepted (as a multiset), the
+registries hold the same modules under renamed load sequence numbers, the canonical dumps are
+equal and so are the error lists. -/
+theorem process_determined_by_accepted_texts (opts : Opts) {files₁ files₂ : List SrcFile}
+    (hacc : (acceptedIn files₁).Perm (acceptedIn files₂)) :
+    (∃ σ, RegRel σ (loadFiles files₁) (loadFiles files₂)) ∧
+    dumpOutcome (processAll (loadFiles files₁) opts (plugFull (loadFiles files₁))) =
+      dumpOutcome (processAll (loadFiles files₂) opts (plugFull (loadFiles files₂))) ∧
+    (processAll (loadFiles files₁) opts (plugFull (loadFiles files₁))).errors =
+      (processAll (loadFiles files₂) opts (plugFull (loadFiles files₂))).errors := by
+  obtain ⟨σ, h⟩ := regRel_of_accepted_perm hacc
+  exact ⟨⟨σ, h⟩, (processAll_renaming_invariant h opts (plugFull_rel h)).symm,
+    (processAll_rel h opts (plugFull_rel h)).1.symm⟩
+
+/-- **Two load orders of one list of texts that accept the same texts have the same result** — the
+statement of `Props.C05.ProcessLoadOrderIrrelevant` with the hypothesis that delimits it exactly
+at the level of texts: the result of `processFiles` (inside the model or not; canonical dump), the
+registry up to load sequence numbers and the error list agree.  The texts may share headers and
+contain texts refused on their own. -/
+theorem process_files_determined_by_accepted (opts : Opts) {files₁ files₂ : List SrcFile}
+    (hperm : files₁.Perm files₂) (hacc : (acceptedIn files₁).Perm (acceptedIn files₂)) :
+    (processFiles opts files₁).toOption.map dumpOutcome = (processFiles opts files₂).toOption.map dumpOutcome ∧
+    (∃ σ, RegRel σ (loadFiles files₁) (loadFiles files₂)) ∧
+    (processAll (loadFiles files₁) opts (plugFull (loadFiles files₁))).errors =
+      (processAll (loadFiles files₂) opts (plugFull (loadFiles files₂))).errors := by
+  obtain ⟨h1, h2, h3⟩ := process_determined_by_accepted_texts opts hacc
+  exact ⟨processFiles_perm_of_dump opts hperm h2, h1, h3⟩
+
+/-- **When the texts acceptable on their own define pairwise different headers, every load order
+accepts exactly these texts** — so the hypothesis of `process_files_determined_by_accepted` holds
+for all permutations, and `process_files_load_order_irrelevant_acceptable` is its special case. -/
+theorem accepted_eq_acceptable_of_distinct {files : List SrcFile}
+    (hd : Distinct (stmtsOf (files.filter AcceptableAlone))) : acceptedIn files = files.filter AcceptableAlone :=
+  acceptedIn_eq_filter hd
+
+theorem accepted_perm_of_distinct {files₁ files₂ : List SrcFile} (hperm : files₁.Perm files₂)
+    (hd : Distinct (stmtsOf (files₁.filter AcceptableAlone))) : (acceptedIn files₁).Perm (acceptedIn files₂) := by
+  have hpf : (files₁.filter AcceptableAlone).Perm (files₂.filter AcceptableAlone) := hperm.filter _
+  have hd₂ : Distinct (stmtsOf (files₂.filter AcceptableAlone)) :=
+    ((List.Perm.flatMap_right _ hpf).map header).nodup_iff.mp hd
+  rw [accepted_eq_acceptable_of_distinct hd, accepted_eq_acceptable_of_distinct hd₂]
+  exact hpf
+
+/-! #### two texts: the exact condition -/
+
+/-- The two texts define no common header. -/
+def NoSharedHeader (f g : SrcFile) : Prop := ∀ s ∈ f.stmts, ∀ t ∈ g.stmts, header s ≠ header t
+
+theorem accepted_pair {f g : SrcFile} (hf : AcceptableAlone f = true) (hg : AcceptableAlone g = true) :
+    (NoSharedHeader f g → acceptedIn [f, g] = [f, g]) ∧ (¬ NoSharedHeader f g → acceptedIn [f, g] = [f]) := by
+  have hc : (g.stmts.all fun s => !(f.stmts.map header).contains (header s)) = true ↔ NoSharedHeader f g := by
+    unfold NoSharedHeader
+    rw [List.all_eq_true]
+    constructor
+    · intro h s hs t ht e
+      have := h t ht
+      simp only [Bool.not_eq_true', List.contains_eq_mem, decide_eq_false_iff_not, List.mem_map, not_exists, not_and] at this
+      exact this s hs e
+    · intro h t ht
+      simp only [Bool.not_eq_true', List.contains_eq_mem, decide_eq_false_iff_not, List.mem_map, not_exists, not_and]
+      intro s hs e
+      exact h s hs t ht e
+  rw [(accepted_texts_characterised _).1]
+  simp only [acceptedGiven, hf, hg, Bool.true_and, List.contains_nil, Bool.not_false, List.all_eq_true, implies_true,
+    if_true, List.nil_append]
+  constructor
+  · intro h; rw [if_pos (by simpa [List.all_eq_true] using hc.mpr h)]
+  · intro h; rw [if_neg (by intro h'; exact h (hc.mp (by simpa [List.all_eq_true] using h')))]
+
+/-- **Two texts, both acceptable alone**: the two load orders accept the same texts exactly when the
+texts share no header (or are the same text). -/
+theorem accepted_pair_perm_iff {f g : SrcFile} (hf : AcceptableAlone f = true) (hg : AcceptableAlone g = true) :
+    (acceptedIn [f, g]).Perm (acceptedIn [g, f]) ↔ (f = g ∨ NoSharedHeader f g) := by
+  have hsym : NoSharedHeader g f ↔ NoSharedHeader f g :=
+    ⟨fun h s hs t ht e => h t ht s hs e.symm, fun h s hs t ht e => h t ht s hs e.symm⟩
+  by_cases hP : NoSharedHeader f g
+  · rw [(accepted_pair hf hg).1 hP, (accepted_pair hg hf).1 (hsym.mpr hP)]
+    exact ⟨fun _ => .inr hP, fun _ => List.Perm.swap _ _ _⟩
+  · rw [(accepted_pair hf hg).2 hP, (accepted_pair hg hf).2 (fun h => hP (hsym.mp h))]
+    rw [List.perm_singleton, List.singleton_inj]
+    exact ⟨fun h => .inl h, fun h => h.elim id (fun h => absurd h hP)⟩
+
+instance (f g : SrcFile) : Decidable (NoSharedHeader f g) := by unfold NoSharedHeader; infer_instance
+
+/-- **Two texts, both acceptable alone — when exactly the load order does not matter.**  With a
+shared header the second text is refused as a whole: `[f, g]` is processed as `f` alone and
+`[g, f]` as `g` alone.  Hence the dumps of the two orders agree if and only if the texts share no
+header or each text alone is processed to the same dump (the converse of
+`process_files_determined_by_accepted` for two texts: nothing but an accident of the two texts
+makes the orders agree when the accepted texts differ). -/
+theorem pair_order_irrelevant_iff (opts : Opts) {f g : SrcFile} (hf : AcceptableAlone f = true)
+    (hg : AcceptableAlone g = true) :
+    (¬ NoSharedHeader f g → loadFiles [f, g] = loadFiles [f] ∧ loadFiles [g, f] = loadFiles [g]) ∧
+    (dumpOutcome (processAll (loadFiles [f, g]) opts (plugFull (loadFiles [f, g]))) =
+        dumpOutcome (processAll (loadFiles [g, f]) opts (plugFull (loadFiles [g, f]))) ↔
+      NoSharedHeader f g ∨
+      dumpOutcome (processAll (loadFiles [f]) opts (plugFull (loadFiles [f]))) =
+        dumpOutcome (processAll (loadFiles [g]) opts (plugFull (loadFiles [g])))) := by
+  have hsym : NoSharedHeader g f → NoSharedHeader f g := fun h s hs t ht e => h t ht s hs e.symm
+  have hsh : ¬ NoSharedHeader f g → loadFiles [f, g] = loadFiles [f] ∧ loadFiles [g, f] = loadFiles [g] := by
+    intro hP
+    have e1 := loadFiles_acceptedIn [f, g]
+    have e2 := loadFiles_acceptedIn [g, f]
+    have a1 : Lemmas.LoadOrder.acceptedIn [f, g] = [f] := (accepted_pair hf hg).2 hP
+    have a2 : Lemmas.LoadOrder.acceptedIn [g, f] = [g] := (accepted_pair hg hf).2 (fun h => hP (hsym h))
+    rw [a1] at e1
+    rw [a2] at e2
+    exact ⟨e1, e2⟩
+  refine ⟨hsh, ?_⟩
+  by_cases hP : NoSharedHeader f g
+  · exact ⟨fun _ => .inl hP, fun _ =>
+      (process_determined_by_accepted_texts opts ((accepted_pair_perm_iff hf hg).mpr (.inr hP))).2.1⟩
+  · obtain ⟨e1, e2⟩ := hsh hP
+    rw [e1, e2]
+    exact ⟨fun h => .inr h, fun h => h.elim (fun h => absurd h hP) id⟩
+
+/-! #### the witness: three texts, `a` in two of them, `b` in two of them
+
+`wT1` = module `a` (with a container), `wT2` = module `a` and module `b` (with a container) in one
+text, `wT3` = module `b`.  Each is acceptable alone.  Loaded `wT1, wT2, wT3`: `wT2` is refused for
+`a`, which frees `b` for `wT3` — accepted `wT1, wT3`.  Loaded `wT2, wT1, wT3`: only `wT2` is
+accepted.  The real code does the same (replayed: `duplicate module a at t1.yang:1:1 and
+t2.yang:1:1`, then `t3.yang` accepted; in the other order both `t1.yang` and `t3.yang` refused). -/
+
+def wA1 : Stmt :=
+  st "t1.yang" "module" "a" 1 [st "t1.yang" "namespace" "urn:a" 1, st "t1.yang" "prefix" "a" 1,
+    st "t1.yang" "container" "c" 1]
+def wA2 : Stmt :=
+  st "t2.yang" "module" "a" 1 [st "t2.yang" "namespace" "urn:a" 1, st "t2.yang" "prefix" "a" 1]
+def wB2 : Stmt :=
+  st "t2.yang" "module" "b" 2 [st "t2.yang" "namespace" "urn:b" 2, st "t2.yang" "prefix" "b" 2,
+    st "t2.yang" "container" "dd" 2]
+def wB3 : Stmt :=
+  st "t3.yang" "module" "b" 1 [st "t3.yang" "namespace" "urn:b" 1, st "t3.yang" "prefix" "b" 1]
+def wT1 : SrcFile := ⟨"t1.yang", [wA1]⟩
+def wT2 : SrcFile := ⟨"t2.yang", [wA2, wB2]⟩
+def wT3 : SrcFile := ⟨"t3.yang", [wB3]⟩
+
+theorem w_inside_model : outsideL "" [wA1] = none ∧ outsideL "" [wA2, wB2] = none ∧ outsideL "" [wB3] = none := by
+  have h1 := split_colon_length "module" (by decide)
+  have h2 := split_colon_length "namespace" (by decide)
+  have h3 := split_colon_length "prefix" (by decide)
+  have h4 := split_colon_length "container" (by decide)
+  refine ⟨?_, ?_, ?_⟩ <;> simp [wA1, wA2, wB2, wB3, st, outsideL, outside, h1, h2, h3, h4]
+
+theorem w_no_typedefs (n : Nat) : Types.dictTypedefs ⟨n, wA1⟩ = [] ∧ Types.dictTypedefs ⟨n, wA2⟩ = [] ∧
+    Types.dictTypedefs ⟨n, wB2⟩ = [] ∧ Types.dictTypedefs ⟨n, wB3⟩ = [] := by
+  refine ⟨?_, ?_, ?_, ?_⟩ <;>
+    simp [wA1, wA2, wB2, wB3, st, Types.dictTypedefs, Types.collect, Types.collectL, Stmt.all, Stmt.subs, Stmt.kw]
+
+/-- which texts are accepted in four of the six orders -/
+theorem w_accepted :
+    (acceptedIn [wT1, wT2, wT3]).map (·.name) = ["t1.yang", "t3.yang"] ∧
+    (acceptedIn [wT2, wT1, wT3]).map (·.name) = ["t2.yang"] ∧
+    (acceptedIn [wT3, wT2, wT1]).map (·.name) = ["t3.yang", "t1.yang"] ∧
+    (acceptedIn [wT1, wT3, wT2]).map (·.name) = ["t1.yang", "t3.yang"] := by
+  simp only [(accepted_texts_characterised _).1]
+  decide
+
+/-- **With shared headers the load order matters** (by design: first come, first served).  Three
+texts, each acceptable on its own and inside the model, `a` defined by two of them and `b` by two
+of them; two orders of the same three texts accept different texts (`t1, t3` against `t2` alone)
+and the canonical dumps of the real pipeline (`processFiles`, `plugFull`) differ. -/
+theorem process_files_order_matters_with_shared_headers :
+    [wT1, wT2, wT3].Perm [wT2, wT1, wT3] ∧
+    (∀ f ∈ [wT1, wT2, wT3], AcceptableAlone f = true) ∧ InsideModel [wT1, wT2, wT3] ∧
+    (acceptedIn [wT1, wT2, wT3]).map (·.name) = ["t1.yang", "t3.yang"] ∧
+    (acceptedIn [wT2, wT1, wT3]).map (·.name) = ["t2.yang"] ∧
+    (processFiles {} [wT1, wT2, wT3]).toOption.map dumpOutcome ≠
+      (processFiles {} [wT2, wT1, wT3]).toOption.map dumpOutcome := by
+  have o1 : List.findSome? (fun f : SrcFile => outsideL "" f.stmts) [wT1, wT2, wT3] = none := by
+    simp only [List.findSome?, wT1, wT2, wT3, w_inside_model.1, w_inside_model.2.1, w_inside_model.2.2]
+  have o2 : List.findSome? (fun f : SrcFile => outsideL "" f.stmts) [wT2, wT1, wT3] = none := by
+    simp only [List.findSome?, wT1, wT2, wT3, w_inside_model.1, w_inside_model.2.1, w_inside_model.2.2]
+  refine ⟨List.Perm.swap _ _ _, by decide, o1, w_accepted.1, w_accepted.2.1, ?_⟩
+  intro hh
+  unfold processFiles at hh
+  rw [o1, o2] at hh
+  simp only [Except.toOption, Option.map_some, Option.some.injEq] at hh
+  have r1 : loadFiles [wT1, wT2, wT3] = (Registry.loadAll [wA1, wB3]).1 := by rfl
+  have r2 : loadFiles [wT2, wT1, wT3] = (Registry.loadAll [wA2, wB2]).1 := by rfl
+  have p1 : plugFull (Registry.loadAll [wA1, wB3]).1 = plugNoTd (Registry.loadAll [wA1, wB3]).1 := by
+    apply plugFull_noTypedefs
+    intro m hm
+    have : (Registry.loadAll [wA1, wB3]).1.mods = [⟨0, wA1⟩, ⟨1, wB3⟩] := by rfl
+    rw [this] at hm
+    simp only [List.mem_cons, List.not_mem_nil, or_false] at hm
+    rcases hm with rfl | rfl
+    · exact (w_no_typedefs 0).1
+    · exact (w_no_typedefs 1).2.2.2
+  have p2 : plugFull (Registry.loadAll [wA2, wB2]).1 = plugNoTd (Registry.loadAll [wA2, wB2]).1 := by
+    apply plugFull_noTypedefs
+    intro m hm
+    have : (Registry.loadAll [wA2, wB2]).1.mods = [⟨0, wA2⟩, ⟨1, wB2⟩] := by rfl
+    rw [this] at hm
+    simp only [List.mem_cons, List.not_mem_nil, or_false] at hm
+    rcases hm with rfl | rfl
+    · exact (w_no_typedefs 0).2.1
+    · exact (w_no_typedefs 1).2.2.1
+  rw [r1, r2, p1, p2] at hh
+  have hl := congrArg String.length hh
+  revert hl
+  decide +kernel
+
+/-- **The first load of every header of the flattened statement list does not decide texts**: in
+the order `t1, t2, t3` the first statement that carries `b` is the one of `t2`, but `t2` is
+refused as a whole and the `b` of `t3` is loaded — the registry after the texts is not the
+registry after their statements one by one.  (This is why `process_determined_by_first_loads`
+does not lift to texts that hold several modules; `process_files_determined_by_accepted` is the
+statement that does.) -/
+theorem first_loads_of_statements_do_not_decide_texts :
+    (acceptedLoads (stmtsOf [wT1, wT2, wT3])).map (fun s => (s.file, s.arg)) = [("t1.yang", "a"), ("t2.yang", "b")] ∧
+    (stmtsOf (acceptedIn [wT1, wT2, wT3])).map (fun s => (s.file, s.arg)) = [("t1.yang", "a"), ("t3.yang", "b")] := by
+  refine ⟨by decide, ?_⟩
+  simp only [(accepted_texts_characterised _).1]
+  decide
+
+/-- Two orders that accept the same texts: `t1, t2, t3` and `t3, t2, t1` (and `t1, t3, t2`) — an
+instance of `process_files_determined_by_accepted` with shared headers, where neither `Distinct`
+nor `SameFirstLoads` of the statement lists holds. -/
+theorem w_same_accepted : (acceptedIn [wT1, wT2, wT3]).Perm (acceptedIn [wT3, wT2, wT1]) := by
+  have e1 : acceptedIn [wT1, wT2, wT3] = [wT1, wT3] := by
+    rw [(accepted_texts_characterised _).1]
+    simp only [acceptedGiven]
+    rw [if_pos (by decide), if_neg (by decide), if_pos (by decide)]
+  have e2 : acceptedIn [wT3, wT2, wT1] = [wT3, wT1] := by
+    rw [(accepted_texts_characterised _).1]
+    simp only [acceptedGiven]
+    rw [if_pos (by decide), if_neg (by decide), if_pos (by decide)]
+  rw [e1, e2]
+  exact List.Perm.swap _ _ _
+
+example (opts : Opts) : ¬ Distinct (stmtsOf ([wT1, wT2, wT3].filter AcceptableAlone)) ∧
+    (processFiles opts [wT1, wT2, wT3]).toOption.map dumpOutcome =
+      (processFiles opts [wT3, wT2, wT1]).toOption.map dumpOutcome :=
+  ⟨by decide, (process_files_determined_by_accepted opts (perm_rev3 _ _ _) w_same_accepted).1⟩
+/-- non-vacuity of `process_files_eq_accepted` and of `accepted_perm_of_distinct` -/
+example : InsideModel [wT1, wT2, wT3] := process_files_order_matters_with_shared_headers.2.2.1
+example : Distinct (stmtsOf ([wT1, ⟨"b.yang", [exB, exB]⟩, wT3].filter AcceptableAlone)) ∧
+    (acceptedIn [wT1, ⟨"b.yang", [exB, exB]⟩, wT3]).map (·.name) = ["t1.yang", "t3.yang"] := by
+  refine ⟨by decide, ?_⟩
+  simp only [(accepted_texts_characterised _).1]
+  decide
+
+
+/-- non-vacuity of the two-text theorems: `t1`, `t3` share no header, `t1`, `t2` share `a` -/
+example : AcceptableAlone wT1 = true ∧ AcceptableAlone wT2 = true ∧ AcceptableAlone wT3 = true ∧
+    NoSharedHeader wT1 wT3 ∧ ¬ NoSharedHeader wT1 wT2 ∧ ¬ NoSharedHeader wT2 wT3 := by decide
 
 end Goyang.Props.C05Order
